@@ -9,44 +9,48 @@ import LiquerModel.EvalO
 
 namespace Liquer
 
-/-- a run of consecutive `store_metadata` writes of one thread is one scheduling unit (the implementation issues many progress
-updates in a row — one per log event and parent context); within a run only the last status per key survives -/
-def setMeta (l : List (Str × Str)) (k st : Str) : List (Str × Str) :=
-  if l.any (fun e => e.1 == k) then l.map (fun e => if e.1 == k then (k, st) else e) else l ++ [(k, st)]
-
-def canonTrace : List COp → List COp
-  | [] => []
-  | .storeMeta k st :: rest =>
-    (match canonTrace rest with
-     | .metas l :: more => .metas (if l.any (fun e => e.1 == k) then l else (k, st) :: l) :: more
-     | more => .metas [(k, st)] :: more)
-  | op :: rest => op :: canonTrace rest
+/-- pre-emption points: a thread can be pre-empted before every `get`, `store` and `remove`; the progress-metadata writes
+(`store_metadata`) that follow such an operation are performed together with it (where and what an evaluation reports as
+progress is not an observable of C12; the writes themselves are applied to the shared cache in program order) -/
+def COp.isMeta : COp → Bool
+  | .storeMeta _ _ => true
+  | _ => false
 
 structure Thread where
   q : Query
   raw : Str
   answers : List (Option EState) := []
-  done : Nat := 0                      -- operations of the canonical trace already performed on the shared cache
+  done : Nat := 0                      -- cache operations of the trace already performed on the shared cache
   result : Option Outcome := none
   calls : List Str := []
 
 /-- the thread's evaluation against the answers received so far -/
 def Thread.run (env : Env) (t : Thread) : OW × Outcome :=
-  evalQO env (evalFuel t.raw) { answers := t.answers } t.q t.raw .none none true []
+  evalQO env (evalFuel t.raw) { answers := t.answers } t.q t.raw .none none true
 
 def Thread.finished (t : Thread) : Bool := t.result.isSome
 
-/-- one step of thread `t` on the shared cache -/
+/-- one cache operation of a thread on the shared cache: a `get` records the shared cache's answer, writes are applied -/
+def applyOp (acc : World × List (Option EState)) : COp → World × List (Option EState)
+  | .get k => (acc.1, acc.2 ++ [acc.1.get k])
+  | .storeMeta k s => (acc.1.storeMeta k s, acc.2)
+  | .store st => (acc.1.store st, acc.2)
+  | .remove k => (acc.1.remove k, acc.2)
+
+/-- perform the progress writes the thread issues next (up to its next pre-emption point) -/
+def flushMetas (env : Env) (shared : World) (t : Thread) : World × Thread :=
+  let metas := ((t.run env).1.trace.drop t.done).takeWhile COp.isMeta
+  ((metas.foldl applyOp (shared, t.answers)).1, { t with done := t.done + metas.length })
+
+/-- one step of thread `t` on the shared cache: the operation at its pre-emption point and the progress writes after it -/
 def stepThread (env : Env) (shared : World) (t : Thread) : World × Thread :=
   if t.finished then (shared, t) else
   let (ow, out) := t.run env
-  match (canonTrace ow.trace)[t.done]? with
+  match ow.trace[t.done]? with
   | none => (shared, { t with result := some out, calls := ow.calls })
-  | some (.get k) => (shared, { t with answers := t.answers ++ [shared.get k], done := t.done + 1 })
-  | some (.storeMeta k s) => (shared.storeMeta k s, { t with done := t.done + 1 })
-  | some (.store st) => (shared.store st, { t with done := t.done + 1 })
-  | some (.remove k) => (shared.remove k, { t with done := t.done + 1 })
-  | some (.metas l) => (l.foldl (fun w e => w.storeMeta e.1 e.2) shared, { t with done := t.done + 1 })
+  | some op =>
+    let (w, ans) := applyOp (shared, t.answers) op
+    flushMetas env w { t with answers := ans, done := t.done + 1 }
 
 structure Config where
   shared : World
@@ -58,6 +62,13 @@ def stepAt (env : Env) (c : Config) (i : Nat) : Config :=
   | some t =>
     let (w, t') := stepThread env c.shared t
     { shared := w, threads := c.threads.set i t' }
+
+/-- every thread runs to its first pre-emption point -/
+def startAll (env : Env) (c : Config) : Config :=
+  (List.range c.threads.length).foldl (fun c i =>
+    match c.threads[i]? with
+    | none => c
+    | some t => let (w, t') := flushMetas env c.shared t; { shared := w, threads := c.threads.set i t' }) c
 
 /-- any thread may move -/
 inductive StepAny (env : Env) : Config → Config → Prop where
